@@ -10,13 +10,13 @@ import (
 
 // Job is what the driver hands to a worker process (env VERIF_JOB = file path or inline JSON).
 type Job struct {
-	Mode     string `json:"mode"` // gen | replay
-	Property string `json:"property"`
-	Seed     uint64 `json:"seed"`
-	Thorough bool   `json:"thorough,omitempty"`
+	Mode     string          `json:"mode"` // gen | replay
+	Property string          `json:"property"`
+	Seed     uint64          `json:"seed"`
+	Thorough bool            `json:"thorough,omitempty"`
 	Case     json.RawMessage `json:"case,omitempty"`
-	EmitCase bool   `json:"emit_case,omitempty"`
-	Profile  string `json:"profile,omitempty"` // "cluster-c16", "cluster-c19": the real-store lanes of proxy properties
+	EmitCase bool            `json:"emit_case,omitempty"`
+	Profile  string          `json:"profile,omitempty"` // "cluster-c16", "cluster-c19": the real-store lanes of proxy properties
 }
 
 func loadJob() (*Job, error) {
